@@ -24,3 +24,14 @@ package prefix
 //@   ensures[C13] ghost.anyMatch == 1 ==> handler != nil
 //@   loop 1 invariant 0 <= rangecount
 //@   loop 1 invariant[C13] ghost.anyMatch == 0 && ghost.contCalls == ghost.parsedOK
+
+// C16 / C13 — the factory builds a NEW provider for every scope of every configuration and
+// keeps nothing itself: what a reload no longer lists is gone (the frame has no entry for p).
+//@ func (p *Provider) New(ctx context.Context, provider config.SecretConfig, handler tq.Handler, secret func(context.Context, string) ([]byte, error)) (res tq.SecretProvider)
+//@   requires p != nil && p.loggerProvider != nil
+//@   ensures[C13,C16] res != nil ==> (typeOf(res) == *Provider && fresh(res.(*Provider)) && res.(*Provider) != p)
+
+//@ func SetPrefixSecret$1(p *Provider)
+//@   requires p != nil && p.secrets != nil
+//@   modifies p.secrets
+//@   loop 1 invariant -1 <= rangeindex && rangeindex < len(prefixes)
